@@ -7,6 +7,7 @@ setting that admits the interpreter exactly when the range does.
 import PoetryVerif.Proofs.MarkerAlgSoundPv
 import PoetryVerif.Proofs.PyConvComma
 import PoetryVerif.Proofs.PyConvPair
+import PoetryVerif.Proofs.MarkerLeafString
 
 set_option linter.unusedSimpArgs false
 set_option linter.unusedVariables false
@@ -77,5 +78,285 @@ theorem leafPrepare_eqRange (a b : Nat) :
   have g1 : (">=" == "in") = false := by decide
   have g2 : (">=" == "not in") = false := by decide
   simp [f1, f1', f3, f4, g1, g2, eqValue_dots]
+
+/-! ### the clauses -/
+
+theorem itemOK_ge (l : List Nat) (a : Nat) : ItemOK ('>' :: '=' :: _root_.Poetry.relChars (a :: l)) :=
+  ⟨noSep_cons (sp (by simp)) (noSep_cons (sp (by simp)) (noSep_rel _)), ⟨_, _, rfl, startOK_op (by simp)⟩,
+    lastOK_rel ['>', '='] a l⟩
+
+theorem itemOK_lt (l : List Nat) (a : Nat) : ItemOK ('<' :: _root_.Poetry.relChars (a :: l)) :=
+  ⟨noSep_cons (sp (by simp)) (noSep_rel _), ⟨_, _, rfl, startOK_op (by simp)⟩, lastOK_rel ['<'] a l⟩
+
+theorem regVC_lo {B : List Version} (v : Version) (imin : Bool) (hb : PyBound v = true) (hB : v ∈ B) :
+    RegVC B (.single (.rng ⟨some v, none, imin, false⟩)) :=
+  regVC_of_ok (ok_lo v imin hb) (by
+    intro c hc e he
+    simp only [VC.flatten, List.mem_cons, List.mem_nil_iff, or_false] at hc
+    subst hc
+    simp [RC.bounds, RC.view, VRange.bounds, RC.min, RC.max] at he
+    subst he; exact hB)
+
+theorem regVC_hi {B : List Version} (v : Version) (imax : Bool) (hb : PyBound v = true) (hB : v ∈ B) :
+    RegVC B (.single (.rng ⟨none, some v, false, imax⟩)) :=
+  regVC_of_ok (ok_hi v imax hb) (by
+    intro c hc e he
+    simp only [VC.flatten, List.mem_cons, List.mem_nil_iff, or_false] at hc
+    subst hc
+    simp [RC.bounds, RC.view, VRange.bounds, RC.min, RC.max] at he
+    subst he; exact hB)
+
+/-- **`SingleMarker("python_full_version", ">=a.b,<a.(b+1)")`**: the stored constraint is of the regular setting
+and admits `X.Y.Z` exactly when the range does -/
+theorem mkSingle_eqRange {B : List Version} (hpb : ∀ e ∈ B, PyBound e = true) (a b : Nat)
+    (h1 : finalV [a, b] ∈ B) (h2 : finalV [a, b + 1] ∈ B) (X Y Z : Nat) :
+    ∃ res, mkSingle "python_full_version" (">=" ++ eqValue a b) false =
+        .ok ⟨"python_full_version", ">=", eqValue a b, false, .ver res⟩ ∧ RegVC B res ∧
+      res.allowsPlain (pyV X Y Z) = (gpcOf .eq a b).allowsPlain (pyV X Y Z) := by
+  obtain ⟨res, hres, hreg, hex⟩ := parse_commaPair hpb X Y Z
+    ('>' :: '=' :: _root_.Poetry.relChars [a, b], .single (.rng ⟨some (finalV [a, b]), none, true, false⟩))
+    ('<' :: _root_.Poetry.relChars [a, b + 1], .single (.rng ⟨none, some (finalV [a, b + 1]), false, false⟩))
+    ⟨itemOK_ge [b] a, _root_.Poetry.parseSingle_ge a [b] true, regVC_lo _ true (pb _) h1⟩
+    ⟨itemOK_lt [b + 1] a, _root_.Poetry.parseSingle_lt a [b + 1] true, regVC_hi _ false (pb _) h2⟩
+    (">=" ++ eqValue a b) (by simp [String.toList_append, eqValue_toList])
+  refine ⟨res, ?_, hreg, ?_⟩
+  · simp [mkSingle, leafPrepare_eqRange, bind, Except.bind, parseByKind_ver _ res hres, pure, Except.pure]
+  · rw [hex, Bool.eq_iff_iff]
+    simp only [gpcOf, VC.allowsPlain, VC.flatten, List.any_cons, List.any_nil, Bool.or_false, RC.allows,
+      Bool.and_eq_true, allows_lo _ true (pb [a, b]), allows_hi _ false (pb [a, b + 1]),
+      allows_both _ _ true false (pb [a, b]) (pb [a, b + 1])]
+
+/-! ### the union of `python_version != "a.b"` -/
+
+/-- the two members of the range of `python_version != "a.b"` -/
+def neMembers (a b : Nat) : List RC :=
+  [.rng ⟨none, some (finalV [a, b]), false, false⟩, .rng ⟨some (finalV [a, b + 1]), none, true, false⟩]
+
+theorem gpcOf_ne (a b : Nat) : gpcOf .ne a b = .union (neMembers a b) := rfl
+
+theorem neMembers_ok (a b : Nat) : PyVCok (.union (neMembers a b)) :=
+  ok_neStar _ _ (pb _) (pb _) (lt_minor2 a b)
+
+theorem neMembers_bounds (a b : Nat) : ∀ e ∈ boundsOf (neMembers a b), e = finalV [a, b] ∨ e = finalV [a, b + 1] := by
+  intro e he
+  simp [boundsOf, neMembers, RC.bounds, RC.view, VRange.bounds, RC.min, RC.max] at he
+  exact he
+
+/-- between `a.b` and `a.(b+1)`: the interpreter `a.b.1` is excluded, as is `a.b.0` -/
+theorem neMembers_gap (a b c : Nat) : anyAllows (neMembers a b) (pyV a b c) = false := by
+  have h1 : (VRange.mk none (some (finalV [a, b])) false false).allows (pyV a b c) = false := by
+    rw [← Bool.not_eq_true, allows_hi _ false (pb [a, b])]
+    simp [pad3, finalV, lex3_lt]
+  have h2 : (VRange.mk (some (finalV [a, b + 1])) none true false).allows (pyV a b c) = false := by
+    rw [← Bool.not_eq_true, allows_lo _ true (pb [a, b + 1])]
+    simp [pad3, finalV, lex3_gt]
+  simp [anyAllows, neMembers, RC.allows, h1, h2]
+
+/-- the union of `!= "a.b"` excludes more than one version: it is not printed as `!=V` -/
+theorem neMembers_excluded (a b : Nat) (v : Version) :
+    VC.excludedSingleVersion (neMembers a b) ≠ .ok (some v) := by
+  intro hv
+  have hinv : VC.inverted (neMembers a b) = .ok (.single (.ver v)) := by
+    simp only [VC.excludedSingleVersion, bind, Except.bind, pure, Except.pure] at hv
+    cases h : VC.inverted (neMembers a b) with
+    | error e => simp [h] at hv
+    | ok res =>
+      simp only [h] at hv
+      split at hv
+      · rename_i v'; cases hv; rfl
+      · cases hv
+  have hok := neMembers_ok a b
+  have hpbB : ∀ e ∈ boundsOf (neMembers a b), PyBound e = true := by
+    intro e he
+    rcases neMembers_bounds a b e he with rfl | rfl <;> exact pb _
+  have hB := regB_of_pyBound _ hpbB
+  have hmr : ∀ c ∈ neMembers a b, RegMember (boundsOf (neMembers a b)) c := by
+    intro c hc
+    have := hok.2 c (by simpa [VC.flatten] using hc)
+    refine ⟨this.1, this.2.1, this.2.2.1, ?_⟩
+    intro e he
+    simp only [boundsOf, List.mem_flatMap]
+    exact ⟨c, hc, he⟩
+  obtain ⟨huok, _⟩ := unionOK_of_reg hB (neMembers a b) hmr hok.1.2.2.1
+  obtain ⟨_, hb, hsem⟩ := inverted_sem _ huok _ hinv
+  have hvB := hb v (by simp [VC.bounds, RC.bounds, RC.view, VRange.bounds, RC.min])
+  have hvpb : PyBound v = true := hpbB v hvB
+  -- both `a.b.0` and `a.b.1` would have to be the excluded version
+  have key : ∀ c, vk (pyV a b c) = vk v := by
+    intro c
+    have h1 := hsem (pyV a b c) (pyV_wf a b c) (regular_final _ hpbB [a, b, c])
+    rw [neMembers_gap a b c] at h1
+    have hva : (VC.single (.ver v)).allowsPlain (pyV a b c) = v.allows (pyV a b c) := by
+      simp [VC.allowsPlain, VC.flatten, RC.allows]
+    rw [hva] at h1
+    exact (RC.ver_allows_iff v (pyV a b c) (PyBound_wf hvpb) (pyV_wf a b c)
+      ((regular_final _ hpbB [a, b, c]).reg1 hvB)).1 (by simpa using h1)
+  have h01 : vk (pyV a b 0) = vk (pyV a b 1) := (key 0).trans (key 1).symm
+  rw [vk_eq_iff] at h01
+  have : Version.cmp (pyV a b 0) (pyV a b 1) = .lt := by
+    rw [show pyV a b 0 = finalV [a, b, 0] from rfl, show pyV a b 1 = finalV [a, b, 1] from rfl, cmp_finalV,
+      sz_cmp_cons, sz_cmp_cons]
+    exact sz_cmp_lt_head (by omega) _ _
+  rw [this] at h01; cases h01
+
+/-- the text of the value group of `<a.b || >=a.(b+1)` -/
+def neValue (a b : Nat) : String := Version.relText [a, b] ++ " || >=" ++ Version.relText [a, b + 1]
+
+/-- `str()` of the union of `python_version != "a.b"` -/
+theorem toStr_neUnion (a b : Nat) (t : String) (h : (VC.union (neMembers a b)).toStr = .ok t) :
+    t = "<" ++ neValue a b := by
+  have hw : VC.excludedWildcard (neMembers a b) = none := by
+    simp [VC.excludedWildcard, neMembers, RC.max, RC.min, RC.imax, RC.imin, wildcardCandidate_final _ _ true (pb [a, b + 1])]
+  simp only [VC.toStr, bind, Except.bind] at h
+  cases hx : VC.excludedSingleVersion (neMembers a b) with
+  | error e => rw [hx] at h; cases h
+  | ok o =>
+    cases o with
+    | some v => exact absurd hx (neMembers_excluded a b v)
+    | none =>
+      rw [hx] at h
+      simp only [hw] at h
+      simp only [neMembers, List.mapM_cons, List.mapM_nil, RC.toStr, VRange.toStr, bind, Except.bind, pure,
+        Except.pure, Bool.false_eq_true, if_false, if_true, joinWith] at h
+      injection h with h
+      rw [← h]
+      simp [neValue, finalV, String.append_assoc]
+      have : (" || " : String) ++ ">=" = " || >=" := by decide
+      rw [← String.append_assoc, this]
+
+theorem matchPattern1_lt' (c : Char) (cs : List Char) (hc : c ≠ '=') (hv : valueOk' (c :: cs)) :
+    matchPattern1 ('<' :: c :: cs) = some (some "<", String.ofList (c :: cs)) := by
+  have hl := lowerChar_ne_eqsign c hc
+  have hs := spacesThenValue?_ok' _ hv
+  simp [matchPattern1, matchPattern1.tryOps, pattern1Ops, stripPrefixCI?_cons, stripPrefixCI?_nil,
+    lc_eq, lc_tilde, lc_bang, lc_gt, lc_lt, hs, hl]
+
+theorem neValue_toList (a b : Nat) :
+    (neValue a b).toList = _root_.Poetry.relChars [a, b] ++ ' ' :: '|' :: '|' :: ' ' :: '>' :: '=' ::
+      _root_.Poetry.relChars [a, b + 1] := by
+  simp [neValue, String.toList_append, _root_.Poetry.relText_toList]
+
+theorem neValue_dots (a b : Nat) : countChar '.' (neValue a b) = 2 := by
+  have h1 := countChar_relText a [b]
+  have h2 := countChar_relText a [b + 1]
+  simp only [List.length_cons, List.length_nil] at h1 h2
+  have h3 : countChar '.' " || >=" = 0 := by decide
+  simp [neValue, countChar_append, h1, h2, h3]
+
+/-- `SingleMarker.__init__` on `<a.b || >=a.(b+1)`: operator `<`, no padding -/
+theorem leafPrepare_neUnion (a b : Nat) :
+    leafPrepare "python_full_version" ("<" ++ neValue a b) false =
+      .ok { name := "python_full_version", op := "<", value := neValue a b, swapped := false,
+            cstr := "<" ++ neValue a b, kind := .version true } := by
+  obtain ⟨d, ds, hd, hdig⟩ := relChars_head a [b]
+  have hdl : (neValue a b).toList = d :: (ds ++ ' ' :: '|' :: '|' :: ' ' :: '>' :: '=' ::
+      _root_.Poetry.relChars [a, b + 1]) := by
+    rw [neValue_toList, hd]; simp
+  have hv : valueOk' (neValue a b).toList := by
+    rw [hdl]
+    refine ⟨by simp, ?_, ?_⟩
+    · intro c hc
+      simp only [List.head?_cons, Option.some.injEq] at hc
+      subst hc; exact isSpace_of_isDigit hdig
+    · intro c hc
+      rw [← hdl, neValue_toList] at hc
+      simp only [List.mem_append, List.mem_cons] at hc
+      have hr : ∀ l, c ∈ _root_.Poetry.relChars l → c ≠ '\n' := by
+        intro l h e
+        subst e
+        have := (noSep_rel l '\n' h).2.2.2
+        revert this; decide
+      rcases hc with h | rfl | rfl | rfl | rfl | rfl | rfl | h
+      · exact hr _ h
+      all_goals first | decide | exact hr _ h
+  have hne : d ≠ '=' := by intro e; subst e; exact absurd hdig (by decide)
+  have hm : matchPattern1 ("<" ++ neValue a b).toList = some (some "<", neValue a b) := by
+    have : ("<" ++ neValue a b).toList = '<' :: d :: (ds ++ ' ' :: '|' :: '|' :: ' ' :: '>' :: '=' ::
+        _root_.Poetry.relChars [a, b + 1]) := by simp [String.toList_append, hdl]
+    rw [this, matchPattern1_lt' d _ hne (hdl ▸ hv), ← hdl, String.ofList_toList]
+  unfold leafPrepare
+  simp only [Bool.false_eq_true, if_false, hm, Option.getD_some]
+  have f1 : Gen.versionLikeMarkerNames.contains "python_full_version" = true := by decide
+  have f1' : "python_full_version" ∈ Gen.versionLikeMarkerNames := by decide
+  have f3 : aliasName "python_full_version" = "python_full_version" := by decide
+  have f4 : ("python_full_version" != "platform_release") = true := by decide
+  have g1 : ("<" == "in") = false := by decide
+  have g2 : ("<" == "not in") = false := by decide
+  simp [f1, f1', f3, f4, g1, g2, neValue_dots]
+
+/-- **`SingleMarker("python_full_version", "<a.b || >=a.(b+1)")`**: the stored constraint is of the regular
+setting and admits `X.Y.Z` exactly when the union does -/
+theorem mkSingle_neUnion {B : List Version} (hpb : ∀ e ∈ B, PyBound e = true) (a b : Nat)
+    (h1 : finalV [a, b] ∈ B) (h2 : finalV [a, b + 1] ∈ B) (X Y Z : Nat) :
+    ∃ res, mkSingle "python_full_version" ("<" ++ neValue a b) false =
+        .ok ⟨"python_full_version", "<", neValue a b, false, .ver res⟩ ∧ RegVC B res ∧
+      res.allowsPlain (pyV X Y Z) = (gpcOf .ne a b).allowsPlain (pyV X Y Z) := by
+  let q1 : List Char × VC := ('<' :: _root_.Poetry.relChars [a, b], .single (.rng ⟨none, some (finalV [a, b]), false, false⟩))
+  let q2 : List Char × VC := ('>' :: '=' :: _root_.Poetry.relChars [a, b + 1],
+    .single (.rng ⟨some (finalV [a, b + 1]), none, true, false⟩))
+  obtain ⟨res, hres, hreg, hex, _⟩ := parse_groups hpb X Y Z [(q1, []), (q2, [])] (by simp)
+    (by
+      intro g hg q hq
+      simp only [List.mem_cons, List.mem_nil_iff, or_false] at hg
+      rcases hg with rfl | rfl
+      · simp only [Grp.items, List.mem_cons, List.mem_nil_iff, or_false] at hq
+        subst hq
+        exact ⟨itemOK_lt [b] a, _root_.Poetry.parseSingle_lt a [b] true, regVC_hi _ false (pb _) h1⟩
+      · simp only [Grp.items, List.mem_cons, List.mem_nil_iff, or_false] at hq
+        subst hq
+        exact ⟨itemOK_ge [b + 1] a, _root_.Poetry.parseSingle_ge a [b + 1] true, regVC_lo _ true (pb _) h2⟩)
+    (by
+      intro g hg q hq
+      simp only [List.mem_cons, List.mem_nil_iff, or_false] at hg
+      rcases hg with rfl | rfl <;>
+        (simp only [Grp.items, List.mem_cons, List.mem_nil_iff, or_false] at hq; subst hq; simp [q1, q2]))
+    ("<" ++ neValue a b)
+    (by simp [String.toList_append, neValue_toList, orJoin, Grp.chars, Grp.items, spJoin, q1, q2])
+  refine ⟨res, ?_, hreg, ?_⟩
+  · simp [mkSingle, leafPrepare_neUnion, bind, Except.bind,
+      parseByKind_ver _ res (by simpa [parseMarkerVersionConstraint] using hres), pure, Except.pure]
+  · rw [hex]
+    simp [gpcOf, VC.allowsPlain, VC.flatten, Grp.items, q1, q2]
+
+/-! ### the constructor fact for the two shapes -/
+
+theorem toStr_eqRange (a b : Nat) : (gpcOf .eq a b).toStr = .ok (">=" ++ eqValue a b) := by
+  have hw : VRange.isSingleWildcardRange ⟨some (finalV [a, b]), some (finalV [a, b + 1]), true, false⟩ = false := by
+    simp [VRange.isSingleWildcardRange, wildcardCandidate_final _ _ false (pb [a, b])]
+  simp only [gpcOf, VC.toStr, RC.toStr, VRange.toStr, hw, Bool.false_eq_true, if_false, if_true]
+  simp [eqValue, finalV, String.append_assoc]
+
+/-- **`SingleMarker("python_full_version", range)` for the range of `python_version == "a.b"`** -/
+theorem mkSingleOfC_eqRange {B : List Version} (hpb : ∀ e ∈ B, PyBound e = true) (a b : Nat)
+    (h1 : finalV [a, b] ∈ B) (h2 : finalV [a, b + 1] ∈ B) (X Y Z : Nat) (nm : Single)
+    (h : mkSingleOfC "python_full_version" (.ver (gpcOf .eq a b)) = .ok nm) :
+    VerLeaf B "python_full_version" (.single nm) ∧
+      ∀ vc, nm.c = .ver vc → vc.allowsPlain (pyV X Y Z) = (gpcOf .eq a b).allowsPlain (pyV X Y Z) := by
+  obtain ⟨res, hmk, hreg, hex⟩ := mkSingle_eqRange hpb a b h1 h2 X Y Z
+  simp only [mkSingleOfC, LeafC.toStr, toStr_eqRange, bind, Except.bind, hmk] at h
+  cases h
+  refine ⟨⟨rfl, ?_, res, rfl, hreg.1, hreg.2⟩, fun vc hvc => by cases hvc; exact hex⟩
+  simp only [Single.coherent, itemConstraintString, Bool.false_eq_true, if_false, hmk]
+  simp
+
+/-- **`SingleMarker("python_full_version", union)` for the union of `python_version != "a.b"`** -/
+theorem mkSingleOfC_neUnion {B : List Version} (hpb : ∀ e ∈ B, PyBound e = true) (a b : Nat)
+    (h1 : finalV [a, b] ∈ B) (h2 : finalV [a, b + 1] ∈ B) (X Y Z : Nat) (nm : Single)
+    (h : mkSingleOfC "python_full_version" (.ver (gpcOf .ne a b)) = .ok nm) :
+    VerLeaf B "python_full_version" (.single nm) ∧
+      ∀ vc, nm.c = .ver vc → vc.allowsPlain (pyV X Y Z) = (gpcOf .ne a b).allowsPlain (pyV X Y Z) := by
+  obtain ⟨res, hmk, hreg, hex⟩ := mkSingle_neUnion hpb a b h1 h2 X Y Z
+  simp only [mkSingleOfC, LeafC.toStr, bind, Except.bind] at h
+  cases ht : (gpcOf .ne a b).toStr with
+  | error e => rw [ht] at h; cases h
+  | ok t =>
+    rw [ht] at h
+    have := toStr_neUnion a b t (by rw [← gpcOf_ne]; exact ht)
+    subst this
+    simp only [hmk] at h
+    cases h
+    refine ⟨⟨rfl, ?_, res, rfl, hreg.1, hreg.2⟩, fun vc hvc => by cases hvc; exact hex⟩
+    simp only [Single.coherent, itemConstraintString, Bool.false_eq_true, if_false, hmk]
+    simp
 
 end Poetry.Marker
